@@ -207,9 +207,11 @@ class Ref(object):
         finally:
             self.blocks.pop()
 
-    def candidates(self, hs, where):
+    def candidates(self, hs, where, first_only=False):
         out = []
         for h in hs:
+            if first_only and out:
+                break        # select any/one stops at the first match (where clauses may have effects)
             if where is None:
                 out.append(h)
                 continue
@@ -268,7 +270,7 @@ class Ref(object):
                 fn(x, y, rel, ph)
         elif k == 'select_from':
             _, card, var, kind, where = s
-            c = self.candidates(list(sh.extent[kind.upper()]), where)
+            c = self.candidates(list(sh.extent[kind.upper()]), where, card != 'many')
             if card == 'many':
                 self.store(var, [('inst', h) for h in c])
             else:
@@ -290,7 +292,7 @@ class Ref(object):
                         if x not in nxt:
                             nxt.append(x)
                 cur = nxt
-            c = self.candidates(cur, where)
+            c = self.candidates(cur, where, card != 'many')
             if card == 'many':
                 self.store(var, [('inst', h) for h in c])
             else:
